@@ -642,6 +642,27 @@ type searchRequest struct {
 	revision revision
 }
 
+// merge returns the request combined with a pending one that it supersedes
+func (r searchRequest) merge(pending any) searchRequest {
+	prev, ok := pending.(searchRequest)
+	if !ok {
+		return r
+	}
+	r.changed = r.changed || prev.changed
+	if r.command == nil && prev.command != nil {
+		r.command = prev.command
+		r.environ = prev.environ
+		r.sync = prev.sync
+	}
+	if r.nth == nil {
+		r.nth = prev.nth
+	}
+	if len(prev.denylist) > 0 && prev.revision.compatible(r.revision) {
+		r.denylist = append(append([]int32{}, prev.denylist...), r.denylist...)
+	}
+	return r
+}
+
 type previewRequest struct {
 	template     string
 	scrollOffset int
@@ -6144,7 +6165,11 @@ func (t *Terminal) Loop() error {
 		t.mutex.Unlock() // Must be unlocked before touching reqBox
 
 		if reload {
-			t.eventBox.Set(EvtSearchNew, *reloadRequest)
+			// A request that the coordinator has not picked up yet must not be
+			// lost: carry over its reload command, exclusions, and nth
+			t.eventBox.Update(EvtSearchNew, func(pending any) any {
+				return reloadRequest.merge(pending)
+			})
 		}
 		for _, event := range events {
 			t.reqBox.Set(event, nil)
